@@ -457,6 +457,8 @@ def calculate_structure_function(phase, nbOfPoint=None, step=None):
         Returns:
             ndarray, float: values for the structure function of the data.
     '''
+    # differences and squares are taken below: in floating point, integer-typed phase would wrap around
+    phase = numpy.asarray(phase, dtype=float)
     if nbOfPoint is None:
         nbOfPoint = phase.shape[1] / 4
     if step is None:
